@@ -269,3 +269,249 @@ Example classifier_example :
   binders tpl_example = ["src"] /\
   offenders_of [] tpl_example = [("x.rs", "f", "Ok")].
 Proof. vm_compute. repeat split. Qed.
+
+(* ================================================================== growth round: inventories *)
+
+(* ---- macros: every macro a template invokes is `derive_more::core::<name>` *)
+Lemma macros_ok_b : forallb (fun t => forallb macro_path_ok (macro_paths t)) templates = true.
+Proof. vm_compute. reflexivity. Qed.
+
+Lemma macros_through_core :
+  forall t p, In t templates -> In p (macro_paths t) ->
+    exists name rest, p = "derive_more" :: "core" :: name :: rest.
+Proof.
+  intros t p Ht Hp.
+  pose proof macros_ok_b as Hb. rewrite forallb_forall in Hb. specialize (Hb t Ht).
+  rewrite forallb_forall in Hb. specialize (Hb p Hp).
+  unfold macro_path_ok in Hb.
+  destruct p as [| a [| b [| c rest]]]; try discriminate Hb.
+  apply andb_true_iff in Hb. destruct Hb as [Ha Hb'].
+  apply String.eqb_eq in Ha. apply String.eqb_eq in Hb'. subst a b.
+  exists c, rest. reflexivity.
+Qed.
+
+(* a macro invoked through `derive_more::core::name!` is a head of kind HRoot `derive_more`, hence closed; a bare
+   macro name is a head of kind HMacro, never closed *)
+Lemma bare_macro_never_closed : forall gb lb x, allowed_head gb lb {| h_name := x; h_kind := HMacro |} = false.
+Proof. reflexivity. Qed.
+
+(* ---- every `derive_more::..` path a template names is backed by an export of src/lib.rs *)
+Lemma dm_paths_exported_b : forallb (fun t => forallb (dm_path_exported dm_exports) (dm_paths t)) templates = true.
+Proof. vm_compute. reflexivity. Qed.
+
+Lemma dm_paths_exported :
+  forall t p, In t templates -> In p (dm_paths t) -> dm_path_exported dm_exports p = true.
+Proof.
+  intros t p Ht Hp. pose proof dm_paths_exported_b as Hb. rewrite forallb_forall in Hb.
+  specialize (Hb t Ht). rewrite forallb_forall in Hb. apply Hb. exact Hp.
+Qed.
+
+(* ---- method calls *)
+Lemma method_offenders_known_b :
+  forallb (fun o => mem (method_key o) known_method_sites) (method_offenders templates) = true.
+Proof. vm_compute. reflexivity. Qed.
+
+Lemma method_site_closed_or_offender :
+  forall ts t s, In t ts -> In s (method_sites t) ->
+    method_site_closed (global_typed_binders ts) s = true \/
+    In (t_file t, ms_name s) (method_offenders ts).
+Proof.
+  intros ts t s Ht Hs.
+  destruct (method_site_closed (global_typed_binders ts) s) eqn:Hc; [left; reflexivity | right].
+  unfold method_offenders. apply in_flat_map. exists t. split; [exact Ht |].
+  unfold method_offenders_of. apply in_map_iff. exists s. split; [reflexivity |].
+  apply filter_In. split; [exact Hs |]. rewrite Hc. reflexivity.
+Qed.
+
+Lemma method_calls_classified :
+  forall t s, In t templates -> In s (method_sites t) ->
+    method_site_closed (global_typed_binders templates) s = true \/
+    In (method_key (t_file t, ms_name s)) known_method_sites.
+Proof.
+  intros t s Ht Hs.
+  destruct (method_site_closed_or_offender templates t s Ht Hs) as [Hc | Ho]; [left; exact Hc | right].
+  pose proof method_offenders_known_b as Hb. rewrite forallb_forall in Hb.
+  apply mem_In. exact (Hb _ Ho).
+Qed.
+
+(* what "closed" means for a call site: its receiver is not an interpolation, a field or `self`, but (a chain of calls
+   on) a local none of whose declarations is user-typed, or a literal *)
+Lemma method_site_closed_receiver :
+  forall gt s, method_site_closed gt s = true ->
+    (exists y, recv_root (ms_recv s) = RLocal y /\ local_not_user_typed gt y = true) \/ recv_root (ms_recv s) = RLit.
+Proof.
+  intros gt s H. unfold method_site_closed in H.
+  destruct (recv_root (ms_recv s)) eqn:E; try discriminate H.
+  - left. exists x. split; [reflexivity | exact H].
+  - right. reflexivity.
+Qed.
+
+(* the logical skeleton of method resolution *)
+Lemma inherent_call_scope_independent :
+  forall i provides sc1 sc2, resolve_method (Some i) provides sc1 = resolve_method (Some i) provides sc2.
+Proof. reflexivity. Qed.
+
+(* with the same traits applicable the call resolves alike: the only scope-dependence of a trait-method call is the
+   set of applicable traits in scope *)
+Lemma trait_call_depends_only_on_applicable_traits :
+  forall provides sc1 sc2,
+    filter provides (mc_macro sc1 ++ mc_user sc1 ++ mc_prelude sc1) =
+    filter provides (mc_macro sc2 ++ mc_user sc2 ++ mc_prelude sc2) ->
+    forall inh, resolve_method inh provides sc1 = resolve_method inh provides sc2.
+Proof. intros provides sc1 sc2 H inh. unfold resolve_method. rewrite H. reflexivity. Qed.
+
+(* a trait-method call on a receiver without such an inherent method observes the caller's scope in all three ways:
+   prelude absent, a second applicable trait in scope, and - for a user-typed receiver - an inherent namesake *)
+Lemma trait_call_observes_scope :
+  forall c d : N, c <> d ->
+    let provides := fun _ : N => true in
+    (* the trait comes from the prelude only: no prelude, no method *)
+    resolve_method None provides {| mc_macro := []; mc_user := []; mc_prelude := [c] |} <>
+    resolve_method None provides {| mc_macro := []; mc_user := []; mc_prelude := [] |} /\
+    (* the macro imports the trait itself, the caller has another applicable trait with that method name *)
+    resolve_method None provides {| mc_macro := [c]; mc_user := []; mc_prelude := [] |} <>
+    resolve_method None provides {| mc_macro := [c]; mc_user := [d]; mc_prelude := [] |} /\
+    (* the receiver's (user) type has an inherent method of that name *)
+    (forall i sc, resolve_method None provides {| mc_macro := [c]; mc_user := []; mc_prelude := [] |} <>
+                  resolve_method (Some i) provides sc).
+Proof.
+  intros c d Hcd provides. unfold resolve_method, provides. cbn [filter app].
+  repeat split; intros; intro E; discriminate E.
+Qed.
+
+(* a call through the trait path (`derive_more::core::ops::Add::add(a, b)`) has no receiver lookup at all: its only
+   name is the head of the path, covered by scope_independent *)
+
+(* ---- completeness of the head classification: a head that is not closed does observe the scope *)
+Definition sc_with (u : ns -> string -> option N) : scope :=
+  {| sc_locals := []; sc_user := u; sc_extern := fun _ => None; sc_prelude := fun _ _ => None |}.
+
+Lemma prelude_wf_sc_with : forall u, prelude_wf (sc_with u).
+Proof. intros u n x _. reflexivity. Qed.
+
+Lemma flagged_head_observes_scope :
+  forall (lb : list string) (h : head),
+    h_kind h <> HExtern ->
+    reserved (h_name h) = false ->
+    h_name h <> "Self" ->
+    mem (h_name h) lb = false ->
+    exists (H : string -> bool) (sc1 sc2 : scope),
+      (forall x, H x = true -> reserved x = false) /\
+      agree_on_nonprelude H sc1 sc2 /\ prelude_wf sc1 /\ prelude_wf sc2 /\
+      resolve lb sc1 h <> resolve lb sc2 h.
+Proof.
+  intros lb [x k] Hk Hr Hself Hlb. cbn [h_name h_kind] in *.
+  exists (fun y => String.eqb y x).
+  exists (sc_with (fun _ y => if String.eqb y x then Some 1%N else None)).
+  exists (sc_with (fun _ _ => None)).
+  split; [| split; [| split; [| split]]].
+  - intros y Hy. apply String.eqb_eq in Hy. subst y. exact Hr.
+  - split; [reflexivity | split; [reflexivity |]].
+    intros n y Hy. cbn [sc_user sc_with]. rewrite Hy. reflexivity.
+  - apply prelude_wf_sc_with.
+  - apply prelude_wf_sc_with.
+  - assert (Hs : String.eqb x "Self" = false) by (apply String.eqb_neq; exact Hself).
+    assert (Hp : mem x primitives = false).
+    { unfold reserved in Hr. apply orb_false_iff in Hr. destruct Hr as [Hp _]. exact Hp. }
+    unfold resolve. cbn [h_name h_kind sc_with sc_user sc_locals sc_extern sc_prelude].
+    destruct k; try (exfalso; apply Hk; reflexivity);
+      rewrite ?Hs, ?Hlb, ?String.eqb_refl, ?Hp; cbn; intro E; discriminate E.
+Qed.
+
+(* a global path `::x` depends on the crate table only - not on the module's items, locals or prelude *)
+Lemma extern_head_module_independent :
+  forall lb1 lb2 sc1 sc2 x,
+    (forall y, sc_extern sc1 y = sc_extern sc2 y) ->
+    resolve lb1 sc1 {| h_name := x; h_kind := HExtern |} = resolve lb2 sc2 {| h_name := x; h_kind := HExtern |}.
+Proof. intros lb1 lb2 sc1 sc2 x He. unfold resolve. cbn [h_name h_kind]. rewrite He. reflexivity. Qed.
+
+(* the hypothesis "the caller does not redefine `derive_more`" of scope_independent is necessary *)
+Definition sc_dm_shadowed : scope :=
+  {| sc_locals := ["src"];
+     sc_user := fun n x => match n with NsTypeValue => if String.eqb x "derive_more" then Some 55%N else None | NsMacro => None end;
+     sc_extern := fun x => if String.eqb x "derive_more" then Some 7%N else None;
+     sc_prelude := std_prelude |}.
+
+Example derive_more_root_observes_user_module :
+  resolve [] sc_normal h_dm = Some (IExtern 7%N) /\ resolve [] sc_dm_shadowed h_dm = Some (IUser 55%N).
+Proof. vm_compute. split; reflexivity. Qed.
+
+(* ---- freshness of the generic parameters the macro introduces *)
+Lemma introduced_generics_b :
+  forallb (fun g => starts_dunder g || mem g known_non_dunder_generics) (introduced_generics templates format_idents) = true.
+Proof. vm_compute. reflexivity. Qed.
+
+Lemma introduced_generics_dunder :
+  forall g, In g (introduced_generics templates format_idents) ->
+    starts_dunder g = true \/ In g known_non_dunder_generics.
+Proof.
+  intros g Hg. pose proof introduced_generics_b as Hb. rewrite forallb_forall in Hb.
+  specialize (Hb g Hg). apply orb_true_iff in Hb. destruct Hb as [Hd | Hk]; [left; exact Hd | right; apply mem_In; exact Hk].
+Qed.
+
+(* the double-underscore test looks at the literal prefix only: it holds for every instantiation `__FromT0`, `__FromT1`,
+   .. of a format_ident! pattern `__FromT{i}` *)
+Lemma starts_dunder_prefix :
+  forall a b c rest1 rest2,
+    starts_dunder (String a (String b (String c rest1))) = starts_dunder (String a (String b (String c rest2))).
+Proof. intros. reflexivity. Qed.
+
+Lemma introduced_generics_all_dunder :
+  forall g, In g (introduced_generics templates format_idents) -> starts_dunder g = true.
+Proof.
+  intros g Hg. destruct (introduced_generics_dunder g Hg) as [Hd | Hk]; [exact Hd | destruct Hk].
+Qed.
+
+Lemma introduced_generics_fresh :
+  forall (user_params : list string),
+    (forall u, In u user_params -> starts_dunder u = false) ->
+    forall g, In g (introduced_generics templates format_idents) -> ~ In g user_params.
+Proof.
+  intros user Hu g Hg Hin.
+  pose proof (introduced_generics_all_dunder g Hg) as Hd.
+  rewrite (Hu g Hin) in Hd. discriminate Hd.
+Qed.
+
+Example fresh_against_plain_params :
+  forall g, In g (introduced_generics templates format_idents) ->
+    ~ In g ["T"; "I"; "'a"; "RhsT"; "_T"; "'_request"; "'derive_more_into"].
+Proof.
+  intros g Hg. apply (introduced_generics_fresh ["T"; "I"; "'a"; "RhsT"; "_T"; "'_request"; "'derive_more_into"]); try assumption.
+  intros u Hu. cbn in Hu. repeat (destruct Hu as [Hu | Hu]; [subst u; reflexivity |]). destruct Hu.
+Qed.
+
+(* the `__` hypothesis on the introduced names is what buys freshness: a name without it is a legal user parameter *)
+Example non_dunder_name_can_clash :
+  forall g, starts_dunder g = false -> (forall u, In u [g] -> starts_dunder u = false) /\ In g [g].
+Proof. intros g Hg. split; [intros u [Hu | []]; subst u; exact Hg | left; reflexivity]. Qed.
+
+(* ---- the listed method-call site is a genuine counterexample to "every dot call has a macro-fixed receiver":
+   a template calls `.as_dyn_error(` on an interpolated (user-typed) receiver, and for such a receiver the call resolves
+   differently when the user's type has an inherent method of that name *)
+Lemma user_receiver_site_b :
+  existsb (fun t => existsb (fun s => String.eqb (ms_name s) "as_dyn_error" && is_ruser (ms_recv s) &&
+                                      negb (method_site_closed (global_typed_binders templates) s) &&
+                                      String.eqb (t_file t) "error.rs")
+                            (method_sites t)) templates = true.
+Proof. vm_compute. reflexivity. Qed.
+
+Lemma method_calls_closed_refuted :
+  exists t s, In t templates /\ In s (method_sites t) /\
+    t_file t = "error.rs" /\ ms_name s = "as_dyn_error" /\ ms_recv s = RUser /\
+    method_site_closed (global_typed_binders templates) s = false /\
+    (forall (c i : N) sc,
+       resolve_method None (fun _ => true) {| mc_macro := [c]; mc_user := []; mc_prelude := [] |} = MTrait c /\
+       resolve_method (Some i) (fun _ => true) sc = MInherent i).
+Proof.
+  pose proof user_receiver_site_b as Hb.
+  apply existsb_exists in Hb. destruct Hb as [t [Ht Hb]].
+  apply existsb_exists in Hb. destruct Hb as [s [Hs Hb]].
+  apply andb_true_iff in Hb. destruct Hb as [Hb Hf].
+  apply andb_true_iff in Hb. destruct Hb as [Hb Hc].
+  apply andb_true_iff in Hb. destruct Hb as [Hn Hr].
+  exists t, s. repeat split; try assumption.
+  - apply String.eqb_eq. exact Hf.
+  - apply String.eqb_eq. exact Hn.
+  - destruct (ms_recv s); try discriminate Hr. reflexivity.
+  - apply negb_true_iff. exact Hc.
+Qed.
